@@ -114,3 +114,29 @@ Proof.
   induction cs as [|c cs IH]; [cbn; lia|].
   rewrite flatten_all_cons, app_length. pose proof (flatten_nonempty c). cbn. lia.
 Qed.
+
+(* a proper prefix of an element's content never reaches the matching end tag *)
+Lemma take_from_prefix_none : forall p s d i,
+  s <> [] -> take_from d (p ++ s) = Some (i, []) -> take_from d p = None.
+Proof.
+  induction p as [|t p IH]; intros s d i Hs H; [reflexivity|].
+  cbn [app] in H. destruct t as [n a|n|x|]; cbn [take_from] in H |- *.
+  - destruct (take_from (S d) (p ++ s)) as [[i' r']|] eqn:E; [|discriminate].
+    cbn in H. injection H as _ ->. now rewrite (IH s (S d) i' Hs E).
+  - destruct d as [|d'].
+    + injection H as _ H. destruct p; [contradiction | discriminate].
+    + destruct (take_from d' (p ++ s)) as [[i' r']|] eqn:E; [|discriminate].
+      cbn in H. injection H as _ ->. now rewrite (IH s d' i' Hs E).
+  - destruct (take_from d (p ++ s)) as [[i' r']|] eqn:E; [|discriminate].
+    cbn in H. injection H as _ ->. now rewrite (IH s d i' Hs E).
+  - destruct (take_from d (p ++ s)) as [[i' r']|] eqn:E; [|discriminate].
+    cbn in H. injection H as _ ->. now rewrite (IH s d i' Hs E).
+Qed.
+
+Lemma skip_prefix_none : forall cs n p s,
+  p ++ s = flatten_all cs ++ [TEnd n] -> s <> [] -> skip p = None.
+Proof.
+  intros cs n p s H Hs. unfold skip, take_subtree.
+  rewrite (take_from_prefix_none p s 0 (flatten_all cs) Hs); [reflexivity|].
+  rewrite H. apply take_subtree_children.
+Qed.
